@@ -599,14 +599,13 @@ pub fn scenarios(prop: &str, tier: &str) -> Vec<Arc<dyn Scenario>> {
                 ar.snap = prop == "C08";
                 ar.no_unsnap = true;
                 ar.reopen = true;
-                let bd = if quick { bs(3, 2, 1, 1, 0) } else { bs(4, 3, 1, 1, 0) };
+                let bd = if quick { bs(2, 2, 1, 0, 0) } else { bs(4, 3, 1, 1, 0) };
                 // no block / blob cache: nothing read earlier can hide a pointer that resolves wrongly
                 let mut cr = mk(16, 64 << 20, 0.0, 1.0);
                 cr.cache_bytes = 0;
                 push(format!("{prop}-relocating"), cr, &ar, bd, vec![vec![]]);
             }
             if quick {
-                push(format!("{prop}-t16-aggressive"), mk(16, 1, 0.0, 1.0), &a, bs(2, 2, 1, 1, 1), seeds_upto(1));
                 push(format!("{prop}-t16-default"), mk(16, 64 << 20, 0.25, 0.25), &a, bs(2, 2, 1, 1, 1), vec![vec![]]);
                 push(format!("{prop}-t1"), mk(1, 64 << 20, 0.25, 1.0), &a, bs(2, 2, 0, 1, 1), vec![vec![]]);
                 if prop == "C08" {
